@@ -327,6 +327,46 @@ def case_oracle(case, stats=None):
                 {f"out{k}": env[i]
                  for k, i in enumerate(case["sym"]["outputs"])}))
             return symbolic_oracle(outs, stats), stats
+        if "named_twin" in case:
+            # two stored intermediates of different shapes under one Named
+            # name: refused, or else given separate, large enough storage
+            c = case["named_twin"]
+            from pytato.tags import ImplStored, Named
+            a = pt.make_placeholder("a", tuple(c["shapes"][0]), np.float64)
+            b = pt.make_placeholder("b", tuple(c["shapes"][1]), np.float64)
+            t1 = (a + 1).tagged([ImplStored(), Named("buf")])
+            t2 = (b * 2).tagged([ImplStored(), Named("buf")])
+            o = {"o1": pt.sum(t1) + a[0], "o2": pt.sum(t2) * b[0]}
+            if c["order"]:
+                o = dict(reversed(list(o.items())))
+            stats.bump("named_twin_programs")
+            outs = pt.transform.deduplicate(pt.make_dict_of_named_arrays(o))
+            return symbolic_oracle(outs, stats), stats
+        if "csr" in case:
+            # a CSR product whose row_starts array has nrows + delta entries:
+            # only delta == 1 is well-formed; whatever pytato accepts must
+            # still give in-bounds (affine) accesses
+            c = case["csr"]
+            if c["sym"]:
+                n = pt.make_size_param("n")
+                m = pt.make_size_param("m")
+            else:
+                n, m = 4, 3
+            try:
+                ev = pt.make_placeholder("ev", (7,), np.float64)
+                ci = pt.make_placeholder("ci", (7,), np.int32)
+                rs = pt.make_placeholder("rs", (n + c["delta"],), np.int32)
+                mat = pt.make_csr_matrix((n, m), ev, ci, rs)
+                x = pt.make_placeholder("x", (m,) if c["vec"] else (m, 2),
+                                        np.float64)
+                y = mat @ x
+            except (ValueError, TypeError):
+                stats.bump("csr_rejected")
+                return None, stats
+            stats.bump("csr_accepted")
+            outs = pt.transform.deduplicate(pt.make_dict_of_named_arrays(
+                {"out0": y}))
+            return symbolic_oracle(outs, stats), stats
         spec = case["spec"]
         try:
             prog = build_pt(spec)
@@ -390,6 +430,26 @@ def run_shard(shard: int, nshards: int, seed: int, tier: str) -> ShardResult:
         tally(case, f, stats, spec_hash(desc))
 
     hyp_run(c16.sym_programs(), sym_body, seed + 11, pl["sym"])
+    k = 0
+    for shapes in ([[6], [4]], [[4], [6]], [[2, 3], [3, 2]], [[2, 3], [7]]):
+        for order in (0, 1):
+            k += 1
+            if k % nshards != shard:
+                continue
+            res.evaluations += 1
+            case = {"named_twin": {"shapes": shapes, "order": order}}
+            f, stats = case_oracle(case)
+            tally(case, f, stats, spec_hash(case))
+    for sym in (False, True):
+        for delta in (0, 1, 2, 3):
+            for vec in (True, False):
+                k += 1
+                if k % nshards != shard:
+                    continue
+                res.evaluations += 1
+                case = {"csr": {"sym": sym, "delta": delta, "vec": vec}}
+                f, stats = case_oracle(case)
+                tally(case, f, stats, spec_hash(case))
     return res
 
 
